@@ -238,6 +238,9 @@ def auto_discharge(s):
     d = search_index_discharge(b, s)
     if d:
         return d
+    d = const_bound_under_len_test(b, s)
+    if d:
+        return d
     if s.kind in ('remzero', 'divzero'):
         a = t['a']
         if isinstance(a, dict) and 'i' in a and int(a['i']) != 0:
@@ -408,15 +411,22 @@ def _closure_plus(b, o):
 def search_index_discharge(b, s):
     if s.kind not in ('slice-index', 'str-index', 'vec-index', 'vec-position', 'bounds', 'slice-position'):
         return None
+    if s.kind == 'slice-position' and s.term['k'] == 'call':
+        nm = (callee_generic(s.term) or '').rsplit('::', 1)[-1]
+        if nm in ('windows', 'chunks', 'chunks_exact', 'rchunks', 'chunks_mut', 'chunks_exact_mut') and len(s.term['args']) >= 2:
+            a1 = s.term['args'][1]
+            c = a1.get('i') if not is_local_op(a1) else None
+            if c is not None and int(c) > 0:
+                return 'auto/nonzero-chunk-size: %s(%s) only panics for a size of 0' % (nm, c)
     recv = site_receiver_names(b, s) - {'self'}
     if not recv:
         return None
     ops = site_index_operands(b, s)
-    if s.kind in ('vec-position', 'slice-position') and not ops and len(s.term['args']) >= 2:
+    if s.kind in ('vec-position', 'slice-position') and len(s.term['args']) >= 2 and (not ops or all(r == 'index' for o, r in ops)):
         ops = [(s.term['args'][1], 'index')]
         nm = (callee_generic(s.term) or '').rsplit('::', 1)[-1]
-        if nm == 'insert':
-            ops = [(s.term['args'][1], 'end')]
+        if nm in ('insert', 'split_at', 'split_at_mut', 'split_off', 'truncate'):
+            ops = [(s.term['args'][1], 'end')]      # mid == len is allowed
     if not ops:
         return None
     roles = [r for o, r in ops]
@@ -436,6 +446,62 @@ def search_index_discharge(b, s):
         if not _search_derived(b, o, recv, plus_ok):
             return None
     return 'auto/index-from-search: every index/range bound is the result of position()/find() on the same collection (< len; +1 only for a range bound) or the length of one of its prefixes'
+
+
+def const_bound_under_len_test(b, s):
+    """x[..c] / x[c..] / x.split_at(c) / x[c] with a CONSTANT c, on an edge where `x.len() >= c` (resp. > c for a plain index) holds:
+    a comparison of the length of the same collection with a constant whose needed outcome implies the bound"""
+    if s.kind not in ('slice-index', 'str-index', 'slice-position', 'bounds', 'vec-index'):
+        return None
+    recv = site_receiver_names(b, s) - {'self'}
+    ops = site_index_operands(b, s)
+    if s.kind == 'slice-position' and s.term['k'] == 'call' and len(s.term['args']) >= 2:
+        nm = (callee_generic(s.term) or '').rsplit('::', 1)[-1]
+        if nm in ('split_at', 'split_at_mut'):
+            ops = [(s.term['args'][1], 'end')]
+    if not recv or not ops:
+        return None
+    need = 0
+    for o, role in ops:
+        if is_local_op(o) or o.get('i') is None:
+            return None
+        c = int(o['i'])
+        need = max(need, c + 1 if role == 'index' else c)
+    roles = [r for o, r in ops]
+    if 'start' in roles and 'end' in roles:
+        vals = {r: int(o['i']) for o, r in ops}
+        if vals['start'] > vals['end']:
+            return None
+    from flow import must_pass
+    for p2, st in b.iter_stmts():
+        if st['k'] != 'assign' or st['rv']['k'] != 'bin' or st['rv']['op'] not in ('Lt', 'Le', 'Gt', 'Ge', 'Eq', 'Ne'):
+            continue
+        a_, c_ = st['rv']['a'], st['rv']['b']
+        op = st['rv']['op']
+        if not is_local_op(a_) and is_local_op(c_):
+            a_, c_ = c_, a_
+            op = {'Lt': 'Gt', 'Gt': 'Lt', 'Le': 'Ge', 'Ge': 'Le'}.get(op, op)
+        if not is_local_op(a_) or is_local_op(c_) or c_.get('i') is None:
+            continue
+        ls = _len_source(b, a_)
+        if ls is None or not (set(ls) & recv):
+            continue
+        k = int(c_['i'])
+        sw = b.blocks[p2[0]]['term']
+        if sw['k'] != 'switch' or set(dict(sw['ts']).keys()) != {'0'}:
+            continue
+        t_edge, f_edge = (p2[0], sw['else']), (p2[0], dict(sw['ts'])['0'])
+        # which outcome is needed to reach the site?
+        if must_pass(b, (0, 0), [s.pos], through=(), avoid_edges={t_edge}):
+            holds = op
+        elif must_pass(b, (0, 0), [s.pos], through=(), avoid_edges={f_edge}):
+            holds = {'Lt': 'Ge', 'Le': 'Gt', 'Gt': 'Le', 'Ge': 'Lt', 'Eq': 'Ne', 'Ne': 'Eq'}[op]
+        else:
+            continue
+        lower = {'Ge': k, 'Gt': k + 1, 'Eq': k}.get(holds)
+        if lower is not None and lower >= need:
+            return 'auto/const-bound-under-length-test: len(%s) %s %d holds on every path to the site, the constant bound needs len >= %d' % ('/'.join(sorted(recv)), {'Ge': '>=', 'Gt': '>', 'Eq': '=='}[holds], k, need)
+    return None
 
 
 def _prefix_len(b, o, recv):
